@@ -5,7 +5,8 @@
 //
 // stdin:  {"preAlts": [labels the pattern can capture], "labels": [candidate canonical labels]}
 // stdout: {"norm": [{"in","out","ok"}], "slots": {"epoch":i,"rel":i,"preL":i,"preN":i,"post":i,"dev":i},
-//          "labelSlot": [{"label","value"}] (candidates with a non-zero label slot)}
+//
+//	"labelSlot": [{"label","value"}] (candidates with a non-zero label slot)}
 package main
 
 import (
